@@ -49,13 +49,14 @@ Definition maxabs (x : tensor) : F := fold_right (fun v acc => fmax (fabs v) acc
 (* ---- the kernels in table form: enough to execute a concrete einsum/tensordot step.
    out[k] = sum over (i,j) in row k of x[i]*y[j]   (bilinear)
    out[k] = sum over i in row k of x[i]            (single-term simplification) *)
-Definition bil := list (list (nat * nat)).
-Definition lin := list (list nat).
+(* positions are binary numbers (N) so that large tables stay small terms *)
+Definition bil := list (list (N * N)).
+Definition lin := list (list N).
 Definition fsum (l : list F) : F := fold_right fadd f0 l.
 Definition bil_apply (t : bil) (x y : tensor) : tensor :=
-  map (fun row => fsum (map (fun ij => fmul (nth (fst ij) x f0) (nth (snd ij) y f0)) row)) t.
+  map (fun row => fsum (map (fun ij => fmul (nth (N.to_nat (fst ij)) x f0) (nth (N.to_nat (snd ij)) y f0)) row)) t.
 Definition lin_apply (t : lin) (x : tensor) : tensor :=
-  map (fun row => fsum (map (fun i => nth i x f0) row)) t.
+  map (fun row => fsum (map (fun i => nth (N.to_nat i) x f0) row)) t.
 
 (* ---- Contractor.__call__ ------------------------------------------------------- *)
 (* temps: dict node -> array, nodes numbered by the harness *)
@@ -414,10 +415,12 @@ Definition xlog (x : xq) : xq :=
   | XNaN, XNaN | XPInf, XPInf | XNInf, XNInf => true
   | _, _ => false
   end.
+(* the comparison does not distinguish a Python scalar from a 0-d array holding it *)
 #[export] Instance Eqb_mant : Eqb (mant xq) := fun x y =>
   match x, y with
   | MArr a, MArr b => eqb a b
   | MScal a, MScal b => eqb a b
+  | MArr [a], MScal b | MScal a, MArr [b] => eqb a b
   | _, _ => false
   end.
 #[export] Instance Eqb_sval : Eqb (sval xq xq) := fun x y =>
@@ -449,6 +452,9 @@ Definition X_wf := wf_prog xq.
 
 (* literals used by the generated cases: n/d *)
 Definition q (n : Z) (d : positive) : xq := XF (Qred (n # d)).
+(* (n * 10^a) / (d * 10^b), the form in which the harness writes numbers with long runs of zeros *)
+Definition qe (n : Z) (a : Z) (d : positive) (b : Z) : xq :=
+  XF (Qred ((n * 10 ^ a) # (Z.to_pos (Zpos d * 10 ^ b)))).
 Definition pair_step (p l r : nat) (t : bil) : instr xq := IPair p l r (X_bil t).
 Definition pre_step (p : nat) (t : lin) : instr xq := IPre p (X_lin t).
 
